@@ -2,6 +2,9 @@ module verifharness
 
 go 1.17
 
-require github.com/gauss-project/aurorafs v0.0.0
+require (
+	github.com/gauss-project/aurorafs v0.0.0
+	golang.org/x/crypto v0.0.0-20220411220226-7b82a4e95df4
+)
 
 replace github.com/gauss-project/aurorafs => /repo
